@@ -109,7 +109,7 @@ def run_isolated(fn, arg, timeout_s):
     return res
 
 
-def _worker(w, W, total, fn, wfd, timeout_s, soft_deadline, stop_fd):
+def _worker(w, W, total, fn, wfd, timeout_s, soft_deadline, init, fini):
     # One core per worker: a run's simulated threads hand the baton to each
     # other on the same core (no cross-core wake-ups), and runs do not
     # migrate.  Purely a throughput measure; results do not depend on it.
@@ -118,21 +118,34 @@ def _worker(w, W, total, fn, wfd, timeout_s, soft_deadline, stop_fd):
         os.sched_setaffinity(0, {cpus[w % len(cpus)]})
     except Exception:
         pass
+    if init is not None:
+        init()
     k = w
     while k < total:
         if time.monotonic() > soft_deadline:
             break
         res = run_isolated(fn, k, timeout_s)
+        if "harness_error" in res and init is not None:
+            # a killed run may have left the worker's helpers mid-protocol
+            try:
+                if fini is not None:
+                    fini()
+                init()
+            except Exception:
+                pass
         data = pickle.dumps((k, res), protocol=4)
         os.write(wfd, struct.pack("<Q", len(data)))
         off = 0
         while off < len(data):
             off += os.write(wfd, data[off:off + (1 << 16)])
         k += W
+    if fini is not None:
+        fini()
     os.close(wfd)
 
 
-def run_pool(fn, total, workers, timeout_s, soft_budget_s, on_result=None):
+def run_pool(fn, total, workers, timeout_s, soft_budget_s, on_result=None,
+             worker_init=None, worker_fini=None):
     """Run ``fn(k)`` for k in range(total), isolated, on ``workers`` processes.
 
     Returns dict k -> result for every run that was launched.
@@ -153,7 +166,7 @@ def run_pool(fn, total, workers, timeout_s, soft_budget_s, on_result=None):
                 for other in pipes:
                     os.close(other)
                 _worker(w, workers, total, fn, wfd, timeout_s, soft_deadline,
-                        None)
+                        worker_init, worker_fini)
             except BaseException:
                 traceback.print_exc()
                 code = 4
